@@ -147,3 +147,10 @@ def check_rates(ctx, d, den, data, created=None):
                                 f'{u["rate"]}', None, data('created-rate'))
     ctx.obligations += 1
     ctx.discharged += 1
+
+
+def avoid(ctx, syms, tags):
+    """symbolic constants are assumed different from the tag constants that identify leaf units in the bytes"""
+    for x in syms:
+        for t in tags:
+            ctx.assume(x.e != z3.RealVal(t))
